@@ -247,6 +247,7 @@ def step (st : St) (toks : List String) : St × String :=
   | ["qbad"] => (st, "qbad 405")
   | ["rbad"] => (st, "rbad 405")
   | "conc" :: _ => (⟨st.s.reset, false⟩, "conc")
+  | "ovl" :: _ => (⟨st.s.reset, false⟩, "ovl")   -- overlapping queries: oracle only; the op ends with a reset
   | "concq" :: n :: rest =>
     -- a concurrent batch of exchanges, linearised goroutine by goroutine: the sorted report at
     -- quiescence, then the reset that ends the phase
